@@ -19,7 +19,12 @@ def main(argv=None):
         if a.replay:
             with open(a.replay) as f:
                 rp = json.load(f)
-            return mod.replay(rp)
+            if hasattr(mod, "replay"):
+                return mod.replay(rp)
+            # generic replay: same seed and tier regenerate the same histories/cases; the stored key is looked for again
+            os.environ["VERIF_SEED"] = str(rp.get("seed", 0))
+            print("replaying", json.dumps(rp.get("key"), sort_keys=True))
+            return mod.run(rp.get("tier", "quick"))
         return mod.run(a.tier)
     except MachineryError as e:
         print(f"MACHINERY-ERROR property={prop}: {e}", file=sys.stderr)
